@@ -33,7 +33,8 @@ ItemOK(g, e) ==
     /\ g[4] = e[4] /\ (e[4] \in {"nil", "none"} \/ g[5] = e[5])    \* response
     /\ (g[6] = 1) = e[6]                                           \* failed flag
     /\ LET nm == NameOf(e[3], e[2], e[7]) IN                        \* decoded in context
-       nm \in {Unnamed, "event"} \/ Names[g[3]] = nm
+       IF nm = Unnamed THEN g[3] \in DOMAIN Names /\ Names[g[3]] \in UnknownNames
+       ELSE nm = "event" \/ Names[g[3]] = nm
 
 Verdict(r) ==
     LET em == IF r.driver = "tridonic" THEN Run(Inputs(r)) ELSE SerialEmissions(Inputs(r))
